@@ -105,6 +105,27 @@ def _inplace_base(func):
     return ov if ov in PURE else None
 
 
+def _out_base(func):
+    """aten.lt.Scalar_out -> aten.lt.Scalar (aten.logical_and.out -> .default) if that functional overload has a PURE handler."""
+    ovn = func._overloadname or ""
+    if not (ovn == "out" or ovn.endswith("_out")):
+        return None
+    outs = [a for a in func._schema.arguments if a.is_out]
+    if len(outs) != 1:
+        return None
+    base = func._schema.name.split("::")[1]
+    pkt = getattr(aten, base, None)
+    if pkt is None:
+        return None
+    ov = getattr(pkt, "default" if ovn == "out" else ovn[:-4], None)
+    return ov if ov in PURE else None
+
+
+def raw_():
+    from .engine import raw
+    return raw()
+
+
 def as_torch_error(msg):
     """An error PyTorch itself would raise for these arguments (shape mismatch); attributed to the calling library code."""
     ex = RuntimeError(msg)
@@ -139,6 +160,21 @@ def dispatch(e, func, args, kwargs):
         b = bind(base, args, kwargs)
         arr = PURE[base](e, b)
         dst = args[0]
+        k = T.kind_of(dst.dtype)
+        arr = np.broadcast_to(arr, tuple(dst.shape))
+        e.write(dst, ufunc(lambda v: T.fix_kind(v, k), 1)(arr) if arr.size else arr)
+        return dst
+    obase = _out_base(func)
+    if obase is not None:
+        # out= variant: the functional result written into the caller's tensor (same storage: earlier views of it change too)
+        kw = {k: v for k, v in kwargs.items() if k != "out"}
+        dst = kwargs.get("out")
+        if dst is None:
+            raise Unsupported(f"positional out argument of {func}")
+        arr = PURE[obase](e, bind(obase, args, kw))
+        if tuple(dst.shape) != tuple(np.shape(arr)):
+            with raw_():
+                dst.resize_(tuple(np.shape(arr)))
         k = T.kind_of(dst.dtype)
         arr = np.broadcast_to(arr, tuple(dst.shape))
         e.write(dst, ufunc(lambda v: T.fix_kind(v, k), 1)(arr) if arr.size else arr)
